@@ -84,6 +84,15 @@
 //	(Segment.Args), the selectors "key#n" (n-th call), "var:name" (a declaration) and
 //	Segment.Up; the conditions are stated at the top of segstate.go.
 //
+//	Arithmetic on int64 and named types over it (Config.Int64Arith; int64.go, vocabulary
+//	Lib/GoSemInt64.v): + - * and unary - wrap around, / and % panic on a zero divisor.
+//	No-return calls inside segments, the message of a no-return call as part of the value
+//	(Config.FailMsgs: exitm / FailedM msg / DoneM r instead of exit / Failed / Done),
+//	package-level variables that are inputs of a segment (Config.InputVars: a flag read through
+//	*v): segfail.go, vocabulary Lib/GoSemFail.v.  Literals T{...} / x := &T{...} of structs with
+//	a Partial table entry inside segments, the elements of undenoted fields being checked inert
+//	and left out: partiallit.go.  Tests: segfail_test.go, internal/synthfail.
+//
 //	EFFECTFUL functions -- sequences of operating-system / library calls with control flow in
 //	between -- have an entry point of their own, TranslateWorld (world.go, world_stmt.go,
 //	world_expr.go; table WorldConfig; vocabulary Lib/GoSemWorld.v): every library call the
@@ -205,6 +214,12 @@ type Config struct {
 	// Nullable: pointer types (types.TypeString) to table structs whose values may be nil: option
 	// of the struct's type (segstate.go)
 	Nullable []string
+	// Int64Arith: + - * / % and unary - on int64 values, with wrap-around (int64.go)
+	Int64Arith bool
+	// segfail.go: FailMsgs: a no-return call is FailedM of its message (the exit type is exitm);
+	// InputVars: package-level variables whose value is an input of a segment
+	FailMsgs  bool
+	InputVars []string
 }
 
 // Prefix asks for the translation of the pure beginning of a block of an otherwise
@@ -1244,6 +1259,9 @@ func (ft *funcTr) assigned(lo, hi token.Pos, nodes ...ast.Node) []*types.Var {
 						return false
 					}
 				}
+				if ft.droppedElement(s) {
+					return false // partiallit.go
+				}
 				ft.t.fail(s, "function literal")
 			case *ast.CallExpr:
 				// a translated method that changes the receiver assigns it (methods.go)
@@ -1661,6 +1679,12 @@ func (ft *funcTr) checkAliasing() {
 		}
 		if id, isId := e.(*ast.Ident); isId && ft.segPtrUseOK(id) || ft.segPtrChainOK(e) || ft.nullableUseOK(e, T) {
 			return true // segstate.go
+		}
+		if ft.inputVarUseOK(e) {
+			return true // segfail.go
+		}
+		if ft.partialLitAddrOK(e) {
+			return true // partiallit.go
 		}
 		if u, isAddr := e.(*ast.UnaryExpr); isAddr && u.Op == token.AND && ft.opaqueVar(e) != nil {
 			if _, isArg := ft.up(e).(*ast.CallExpr); isArg {
